@@ -38,7 +38,7 @@ fn gen_spec(rng: &mut Rng) -> AppSpec {
     if matches!(spec.world.trav, TravCfg::Speed { .. }) && rng.chance(0.2) {
         let ne = spec.world.net.ne();
         let vehicle = ["ice", "bev", "phev"][rng.below(3)].to_string();
-        spec.energy = Some(EnergySpec { vehicle: vehicle.clone(), grades: (0..ne).map(|_| (rng.frange(-0.1, 0.1) * 100.0).round() / 100.0).collect(), cache: rng.chance(0.5), capacity_kwh: rng.frange(1.0, 60.0) });
+        spec.energy = Some(EnergySpec { vehicle: vehicle.clone(), grades: (0..ne).map(|_| (rng.frange(-0.1, 0.1) * 100.0).round() / 100.0).collect(), cache: rng.chance(0.5), capacity_kwh: rng.frange(1.0, 60.0), cache_cfg: (64, 3, 5) });
         spec.world.access = crate::world::AccessCfg::None;
         let e = if vehicle == "ice" { "energy_liquid" } else { "energy_electric" };
         spec.world.cost.weights.push((e.to_string(), 1.0));
@@ -125,7 +125,19 @@ fn mutate(rng: &mut Rng, spec: &AppSpec, qid: &str) -> (Value, String, Option<bo
             ("grid-any-type".into(), None)
         }
         9 => {
-            q["grid_search"] = json!({"a": []});
+            // 1..4 axes of which at least one is empty, at any position among non-empty ones and non-array entries
+            let n_axes = rng.urange(1, 4);
+            let empty_at = rng.below(n_axes);
+            let mut g = Map::new();
+            for a in 0..n_axes {
+                let len = if a == empty_at || rng.chance(0.25) { 0 } else { rng.urange(1, 3) };
+                let opts: Vec<Value> = (0..len).map(|i| if rng.chance(0.3) { json!({format!("ax{a}"): i}) } else { json!(i) }).collect();
+                g.insert(format!("axis{a}"), Value::Array(opts));
+            }
+            if rng.chance(0.3) {
+                g.insert("scalar_entry".into(), json!(5));
+            }
+            q["grid_search"] = Value::Object(g);
             ("grid-empty-axis".into(), if grid { Some(true) } else { None })
         }
         10 => {
@@ -171,7 +183,11 @@ fn mutate(rng: &mut Rng, spec: &AppSpec, qid: &str) -> (Value, String, Option<bo
             ("k-any-type".into(), None)
         }
         18 => {
-            q["k"] = json!(*rng.pick(&[0u64, 1, 1000, 1_000_000_000]));
+            // k multiplies the work a well-formed query asks for; for Yen's algorithm on a network with very many
+            // simple paths a request for 1e9 routes is legitimately enormous, so it is only sent where the number of
+            // routes is bounded by the network (single-via: one per intersection vertex; plain searches ignore k)
+            let yens = matches!(spec.alg, Alg::Yens { .. });
+            q["k"] = json!(*rng.pick(if yens { &[0u64, 1, 300, 1000] } else { &[0u64, 1, 1000, 1_000_000_000] }));
             ("k-absurd".into(), None)
         }
         19 => {
@@ -269,7 +285,7 @@ fn case(case_no: usize, rng: &mut Rng, rep: &mut Report, case_file: &std::path::
         let desc = json!({"rerun": format!("VERIF_ONLY_CASE={case_no} VERIF_SEED=<seed of this run> ./check C12 <tier>"), "case": case_no, "batch_no": bno, "toml": built.toml, "batch": batch, "mutations": items.iter().map(|x| x.1.clone()).collect::<Vec<_>>(), "world": spec.world.to_json()});
         // the parent needs the input of a case that kills the process
         let _ = std::fs::write(case_file, serde_json::to_string(&desc).unwrap_or_default());
-        let rec = Arc::new(Recorder::new(rng.next_u64(), false).with_budget(budget));
+        let rec = Arc::new(Recorder::new(rng.next_u64(), false).with_budget(budget).with_net_size(net.nv(), net.ne()));
         let rc = rec.clone();
         set_app_sink(Some(Arc::new(move |ev| rc.on_event(ev))));
         let out = catch(|| built.app.run(batch.clone(), None));
